@@ -172,7 +172,18 @@ func (s *lazyStream) Read(p []byte) (int, error) {
 			s.rd = bytes.NewReader(encodeResp(blk(h + 100)))
 			r.failed = true // a block of another height is not a service of this height
 		case bMalformed:
-			s.rd = bytes.NewReader(encodeResp(&types.MessageGetBlocksResp{}))
+			// which malformed reply is an environment choice explored like a scheduling decision
+			tx := &types.InvData_Tx{Tx: &types.Transaction{Payload: []byte("x")}}
+			shapes := []*types.MessageGetBlocksResp{
+				{},
+				{Message: &types.InvDatas{}},
+				{Message: &types.InvDatas{Items: []*types.InvData{{Ty: 2, Value: tx}}}},
+				{Message: &types.InvDatas{Items: []*types.InvData{{Ty: 2}}}},
+				{Message: &types.InvDatas{Items: []*types.InvData{{Ty: 1, Value: tx}}}},
+				{Message: &types.InvDatas{Items: []*types.InvData{{Ty: 2, Value: &types.InvData_Block{}}}}},
+				{Message: &types.InvDatas{Items: []*types.InvData{nil}}},
+			}
+			s.rd = bytes.NewReader(encodeResp(shapes[vrt.Choose(len(shapes), "malformed reply shape")]))
 			r.failed = true
 		case bUnavail:
 			w.bad = append(w.bad, fmt.Sprintf("peer %d was asked for height %d above its announced height", s.pi, h))
@@ -297,7 +308,7 @@ func (w *world) verdict() (fp, what string) {
 func main() {
 	r := vx.Start("C35", "model_checking")
 	clog.SetLogLevel("crit")
-	r.Rule = "controlled-scheduler exploration of the instrumented download package: the real handleEventDownloadBlock task over P in-memory peers and a range of H heights; the behaviour of every (peer,height) is enumerated over {serve, refuse stream, malformed reply, read error, wrong height, height unavailable} with at most one height that no peer serves (for the termination clause); per assignment every schedule of the per-height goroutines within the deviation bound. distinct = (assignment class, #requests, #failures) classes"
+	r.Rule = "controlled-scheduler exploration of the instrumented download package: the real handleEventDownloadBlock task over P in-memory peers and a range of H heights; the behaviour of every (peer,height) is enumerated over {serve, refuse stream, malformed reply (7 shapes: empty, no items, declared block type with a transaction payload / without payload, transaction item, block item without block, nil item — chosen like a scheduling decision), read error, wrong height, height unavailable} with at most one height that no peer serves (for the termination clause); per assignment every schedule of the per-height goroutines within the deviation bound. distinct = (assignment class, #requests, #failures) classes"
 	r.Assume = []string{"the libp2p host, peer store, peer-info manager and queue client are in-memory fakes behind the package's own interfaces; stream codecs (protocol.Read/WriteStream) are the real ones", "distinct peer latencies fix the initial sort order", "virtual time for the 400 ms back-off"}
 	r.StateCounter = "tree_nodes"
 	r.DistinctSet = "outcomes"
